@@ -211,7 +211,7 @@ def random_history(rng, kind, nkeys, nops, ranks, weights=None, check_every=20, 
         elif o == "iter_mut":
             st = {x: rk() for x in keys if rng.random() < 0.3}
             steps.append({"op": "iter_mut", "n": rng.choice([0, 0, 1, 2, nkeys // 2, nkeys]),
-                          "nb": rng.choice([0, 0, 1, 2, nkeys]), "set": st, "wp": rng.randint(0, 1),
+                          "nb": rng.choice([0, 0, 1, 2, nkeys]), "bf": rng.random() < 0.5, "set": st, "wp": rng.randint(0, 1),
                           "forget": False, "via_ref": rng.random() < 0.3})
         elif o == "extend":
             m = rng.randint(0, max(1, nkeys // 2))
@@ -318,8 +318,18 @@ def engine_C(name, kinds, iters, sizes, depth, adaptors=True, forget=True, wd_na
                         continue
                     impl = machine_of(kind, it)
                     opn = "into_calls" if it in CONSUMING else "iter_calls"
-                    for cs in seqs[(impl, n)]:
+                    for ci, cs in enumerate(seqs[(impl, n)]):
                         probes.append([{"op": opn, "it": it, "calls": cs + [0] * (n + 2)}])
+                        # the same sequence with one call replaced by nth(k) / nth_back(k), or ended by last() / count()
+                        # (these have default implementations in std that an override must agree with)
+                        if ci % 3 == 0 and cs:
+                            j = (ci // 3) % len(cs)
+                            kk = (ci // 7) % 3
+                            alt = list(cs)
+                            alt[j] = [5 if (cs[j] == 1 and not is_fwd(kind, it)) else 4, kk]
+                            probes.append([{"op": opn, "it": it, "calls": alt + [2, 3] + [0] * (n + 2)}])
+                            fin = 6 if (ci // 3) % 2 == 0 else 7
+                            probes.append([{"op": opn, "it": it, "calls": list(cs[:j + 1]) + [fin, 2, 0, 0]}])
                     if forget and it in ("drain", "iter_mut"):
                         for cs in ([], [0], [0, 0], [0] * n):
                             bk = "pop" if kind == "pq" else "pop_min"
